@@ -143,6 +143,9 @@ def main(argv=None):
         agg["capped"], wall))
     if agg["extra"]:
         print("  " + " ".join("%s=%s" % kv for kv in sorted(agg["extra"].items())))
+    slow = sorted(((r.get("_wall", 0), i) for i, r in enumerate(results) if r), reverse=True)[:3]
+    if slow and slow[0][0] > 8:
+        print("  slowest tasks: " + "; ".join("%.1fs %s" % (w, tasks[i].get("name", i) if isinstance(tasks[i], dict) else i) for w, i in slow))
     for ln in lines:
         print(ln)
     for k in stale:
